@@ -11,7 +11,7 @@ RANGE = re.compile(r"@\d+\.\.\d+")
 class C03(Property):
     id = "C03"
     design_ref = "DESIGN.md section 5 / C03"
-    theorems_note = ("per-operation refinement of the structural specification (first/last child, next/previous sibling with and without "
+    theorems_note = ("iter_script_spec (any sequence of nth(k) calls on ONE child iterator yields what the same calls yield on the plain list of the wanted children), per-operation refinement of the structural specification (first/last child, next/previous sibling with and without "
                      "tokens, indexed lookups, child iterators), parent_child, preorder walks are well nested and visit every element once, "
                      "iterator size reports are exact, token walk enumerates all tokens left to right (after the fixes of F2/F3); "
                      "refuted variants for the pre-fix code; token navigation: first_token / last_token = first / last token position below the element in document order, next_token / prev_token = successor / predecessor in the document order of ALL tokens of the tree (tokens_split: before ++ own ++ after = all), elements without tokens are passed over; first_token_unfixed_refuted (the behaviour before F3)")
